@@ -22,7 +22,7 @@ _ARGN = "seq_prefix(co_varnames(code_of(frame)), co_argcount(code_of(frame)) + c
 contract("monkeytype.tracing:CallTracer.handle_call", props=["C02", "C18", "C06", "C03"], theories=TH, pure=False,
          modifies=["traces", "cache", "func", "arg_types", "return_type", "yield_type"],
          params={"self": "Tracer", "frame": "Frame"}, result="none",
-         requires={"rate": "self.sample_rate is None or self.sample_rate >= 0", "locals-wf": "forall_v(lambda n: implies(has(locals_of(frame), n), wf_val(lookup(locals_of(frame), n))))",
+         requires={"k-int": "self.max_typed_dict_size is not None", "rate": "self.sample_rate is None or self.sample_rate >= 0", "locals-wf": "forall_v(lambda n: implies(has(locals_of(frame), n), wf_val(lookup(locals_of(frame), n))))",
                    "cache-wf": "forall(self.cache, lambda c: lookup(self.cache, c) is None or code_of(lookup(self.cache, c)) is c)"},
          ensures={
              # C18: a call that was not sampled leaves no trace and no residue
@@ -69,7 +69,7 @@ _RET_POSTS = {
     # arrives as ('return', None) with YIELD_VALUE as the last opcode, indistinguishable from `yield None`
     "post:unwind": "implies(%s and cause(frame) is CAUSE_unwind and opcode_at(code_of(frame), lasti(frame)) != OP_YIELD_VALUE, self.traces is dict_del_(old(self.traces), frame) and unchanged('yield_type') and %s)" % (_HAS, _LOGGED.format(ret="None")),
 }
-_RET_REQ = {"arg-wf": "wf_val(arg)", "protocol": "cause(frame) is CAUSE_yield or cause(frame) is CAUSE_await_suspend or cause(frame) is CAUSE_return or cause(frame) is CAUSE_unwind",
+_RET_REQ = {"k-int": "self.max_typed_dict_size is not None", "arg-wf": "wf_val(arg)", "protocol": "cause(frame) is CAUSE_yield or cause(frame) is CAUSE_await_suspend or cause(frame) is CAUSE_return or cause(frame) is CAUSE_unwind",
             "unwind-arg": "implies(cause(frame) is CAUSE_unwind, arg is None)",
             "trace-wf": "implies(%s, %s is not None and %s.return_type is None)" % ("has(self.traces, frame)", "lookup(self.traces, frame)", "lookup(self.traces, frame)")}
 contract("monkeytype.tracing:CallTracer.handle_return", props=["C02", "C18", "C03"], theories=TH, pure=False,
@@ -109,7 +109,7 @@ for _k, _v in _RET_POSTS.items():
 contract("monkeytype.tracing:CallTracer.__call__", props=["C02", "C03", "C17", "C18"], theories=TH, pure=False,
          modifies=["traces", "cache", "func", "arg_types", "return_type", "yield_type"], effects="log",
          params={"self": "Tracer", "frame": "Frame", "event": "strp", "arg": "Val"}, result="Tracer",
-         requires={"protocol": "event_matches(frame, event)",
+         requires={"protocol": "event_matches(frame, event)", "k-int": "self.max_typed_dict_size is not None",
                    "unwind-arg": "implies(cause(frame) is CAUSE_unwind, arg is None)", "arg-wf": "wf_val(arg)", "locals-wf": "forall_v(lambda n: implies(has(locals_of(frame), n), wf_val(lookup(locals_of(frame), n))))",
                    "rate": "self.sample_rate is None or self.sample_rate >= 0",
                    "trace-wf": "implies(has(self.traces, frame), lookup(self.traces, frame) is not None and lookup(self.traces, frame).return_type is None)",
